@@ -207,6 +207,36 @@ def run(ctx: Ctx) -> int:
         # (i) no lossy numeric serializer
         ok = not (sname in NUMERIC and tname.split(".")[-1] not in (sname,))
         ctx.oblige("C20.c.i", ok, None, f"serializer {sname} of {tname} is not a lossy numeric conversion" if ok else f"{tname} is serialised through {sname}(): values that {sname} cannot represent exactly do not survive dump + parse (e.g. Decimal('0.1') -> 0.1000000000000000055...)", site=site, construct=f"{tname} serializer {sname}", function="typing:<module>")
+        # (i') a custom serializer may hand out a narrowed number only after reading it back: the narrowing call is
+        #      returned under an equality test between the registered deserializer applied to it and the value
+        if sname in local_fns:
+            sf = local_fns[sname]
+            par = sf.args.args[0].arg
+            for r in [x for x in walk_local(sf) if isinstance(x, ast.Return) and x.value is not None]:
+                outs = [(r.value.body, [r.value.test]), (r.value.orelse, [])] if isinstance(r.value, ast.IfExp) else [(r.value, [])]
+                for e, tests in outs:
+                    if isinstance(e, ast.Name):
+                        ds_ = [s for s in walk_local(sf) if isinstance(s, ast.Assign) and any(isinstance(t, ast.Name) and t.id == e.id for t in s.targets)]
+                        conv = ds_[0].value if len(ds_) == 1 else e
+                    else:
+                        conv = e
+                    if not (isinstance(conv, ast.Call) and isinstance(conv.func, ast.Name) and conv.func.id in NUMERIC):
+                        continue
+                    from .util import guard_atoms as _gat
+
+                    tests = tests + [t for t, pol in _gat(r, stop=sf) if pol]
+                    readback = [t for t in tests if isinstance(t, ast.Compare) and len(t.ops) == 1 and isinstance(t.ops[0], ast.Eq) and any(isinstance(c_, ast.Call) and isinstance(c_.func, ast.Name) and c_.func.id == dname for c_ in ast.walk(t)) and any(isinstance(n_, ast.Name) and n_.id == par for side in (t.left, t.comparators[0]) for n_ in [side])]
+                    ok = bool(readback)
+                    ctx.oblige("C20.c.i", ok, r, f"{sname} returns the {conv.func.id}() form only when {dname} reads it back as the same value" if ok else f"{sname} returns {conv.func.id}({par}) without checking that {dname} reads it back as the same value: values that {conv.func.id} cannot represent exactly do not survive dump + parse (Decimal('0.12345678901234567890123') loses its digits)", fn=sf, construct=f"{tname} narrowed serialisation is read back")
+            # a float that comes back from the loader is read through its repr (the shortest text that denotes it):
+            # constructing from the binary float gives Decimal('0.1000000000000000055...') for the text 0.1
+            if any(isinstance(c_, ast.Call) and isinstance(c_.func, ast.Name) and c_.func.id == "float" for c_ in ast.walk(sf)) and dname in local_fns:
+                df_ = local_fns[dname]
+                dpar = df_.args.args[0].arg
+                tests_f = [c_ for c_ in ast.walk(df_) if isinstance(c_, ast.Call) and call_leaf(c_) == "isinstance" and isinstance(c_.args[0], ast.Name) and c_.args[0].id == dpar and "float" in ast.unparse(c_.args[1])]
+                via_text = [c_ for c_ in ast.walk(df_) if isinstance(c_, ast.Call) and isinstance(c_.func, ast.Name) and c_.func.id in ("repr", "str") and c_.args and isinstance(c_.args[0], ast.Name) and c_.args[0].id == dpar]
+                ok = bool(tests_f and via_text)
+                ctx.oblige("C20.c.i", ok, df_, f"{dname} reads a float through its text" if ok else f"{dname} constructs {tname} from the binary float: the config text `d: 0.1` gives Decimal('0.1000000000000000055511151231257827...') while --d=0.1 gives Decimal('0.1') - and the dumped number does not read back as the value that was dumped", fn=df_, construct=f"{tname} floats read through their text")
         # (ii) pairs defined together
         if sname in local_fns or (dname in local_fns):
             ok = (sname in local_fns or sname == "str") and (dname in local_fns)
